@@ -1152,4 +1152,19 @@ theorem inv_run {W : World} {prog : Nat → List Call} (sched : List Nat) :
 theorem inv_reachable (W : World) (prog : Nat → List Call) (sched : List Nat) :
     Inv W prog (run W false (init W prog) sched) := inv_run sched (inv_init W prog)
 
+
+/-- names are only ever taken off the list -/
+theorem run_pending_mono {W : World} {prog : Nat → List Call} (sched : List Nat) :
+    ∀ {s : Sys}, Inv W prog s → ∀ i ∈ (run W false s sched).g.pending, i ∈ s.g.pending := by
+  induction sched with
+  | nil => intro s _ i hi; exact hi
+  | cons k ks ih =>
+    intro s I i hi
+    have h1 := ih (inv_step k I) i hi
+    exact (step_thread I.ginv (I.tinv k)).pend i (by simpa [Sys.step] using h1)
+
+theorem run_append (W : World) (lg : Bool) (s : Sys) (a b : List Nat) :
+    run W lg s (a ++ b) = run W lg (run W lg s a) b := by
+  simp [run, List.foldl_append]
+
 end Utv.C20
